@@ -324,6 +324,31 @@ def run(facts, tier):
             t8.missing_anchor(f"two-operand arms of the value evaluator that use the product helper ({n_c} found)")
     rules.append(t8.finish())
 
+    # ---------------- T15.9 every path operator the parser reads takes its own postfix `?`
+    t9 = Rule("T15.9", "each path part the parser builds (`.k`, `.\"k\"`, `[..]`) is paired with the optionality read from the tokens that follow it "
+              "(the parser's `?`-reader, the method of the parser that returns `path::Opt`), never with a constant: otherwise `.a.\"b\"?` makes the whole path optional or is rejected", floor=4)
+    PART_OPT = re.compile(r"^\(jaq_core::path::Part<.*>, jaq_core::path::Opt\)$")
+    n9 = 0
+    for f_ in facts.hir("jaq_core"):
+        if not re.match(r"^jaq_core::load::parse::Parser::<", f_["def"]) or f_.get("test"):
+            continue
+        inits = {}
+        for s_ in find(f_["body"], lambda n: n.get("k") == "Let" and n.get("init") is not None):
+            for b_ in find(s_["pat"], lambda n: n.get("k") == "Bind"):
+                inits[b_["id"]] = s_["init"]
+        for tup in find(f_["body"], lambda n: n.get("k") == "Tup" and PART_OPT.match(n.get("ty") or "") and len(n.get("xs", [])) == 2):
+            o_ = strip(tup["xs"][1])
+            seen = 0
+            while o_.get("k") == "Path" and "local" in (o_.get("path") or {}) and o_["path"].get("id") in inits and seen < 4:
+                o_ = strip(inits[o_["path"]["id"]]); seen += 1
+            from_tokens = o_.get("k") in ("MethodCall", "Call") and o_.get("ty") == "jaq_core::path::Opt" and "Parser" in str(o_.get("recv_ty") or [strip(a_).get("ty") for a_ in o_.get("args", [])])
+            unknown = o_.get("k") == "Path" and "local" in (o_.get("path") or {})   # a parameter or pattern binding: not decided here
+            n9 += 1
+            t9.examined(("part", f_["def"], n9), True, {"fn": f_["def"], "at": tup["sp"], "optionality_read_from_tokens": from_tokens, "undecided": unknown})
+            if not from_tokens and not unknown:
+                t9.violate(f"const-opt/{f_['def']}", f"`{f_['def']}` builds a path part with a fixed optionality instead of reading the `?` that may follow it", where=tup["sp"])
+    rules.append(t9.finish())
+
     # ---------------- T15.6 `@fmt "..."` in key position keeps its format
     t6 = Rule("T15.6", "a format-prefixed string used as a key (`{@base64 \"k\\(f)\": v}`, `.@uri \"..\"`) is parsed into a string term carrying that format, like in term position", floor=2)
     fn = facts.hir_find(r"^jaq_core::load::parse::Parser::<.*>::str_key$", "jaq_core")
